@@ -68,7 +68,7 @@ func propC09(ch core.Chooser, st *core.Stats) error {
 	for i := 0; i < sessions; i++ {
 		ch.Note("== session %d", i)
 		n := ch.Int("nops", 0, core.Scale(40, 150))
-		if err := s.runOps(n, []int{8, 4, 2, 1, 0, 1, 1}); err != nil {
+		if err := s.runOps(n, []int{8, 4, 2, 1, 0, 1, 1, 1}); err != nil {
 			return fmt.Errorf("session %d: %v", i, err)
 		}
 		lastCloseStart = s.fs.LogLen()
